@@ -8,8 +8,11 @@ import (
 	"time"
 
 	tcpip "github.com/brewlin/net-protocol/protocol"
+	"github.com/brewlin/net-protocol/protocol/network/ipv4"
+	"github.com/brewlin/net-protocol/protocol/transport/udp"
 
 	"verif/engine"
+	"verif/ref"
 )
 
 // C06: every emitted frame is well-formed, checksummed and correctly addressed. The frame
@@ -20,7 +23,7 @@ func init() {
 	engine.Register(&engine.Check{
 		ID:         "C06",
 		Technique:  "exhaustive enumeration / bounded environment exploration of frame-producing scenarios on the real stack, every emitted frame decoded and validated by an independent RFC-derived decoder (lengths, IPv4/ICMP/UDP/TCP checksums with pseudo header, option well-formedness, IP identification, source/destination addressing)",
-		Rule:       "UDP: every payload length 0..1472 and every 2-byte payload 0x0000..0xffff on IPv4 and IPv6 (drives the checksum through all values); ICMP echo replies for every payload length; TCP: SYN/SYN-ACK with every option combination, data with timestamps and SACK blocks, pure ACKs, FIN, RST from handshake checks and for unknown destinations, under drop/dup/reorder deviations (budget 1); ARP/NDP and Ethernet addressing in the C12 scenarios; distinct = distinct scenario input; non-trivial = all",
+		Rule:       "UDP: every payload length 0..1472 and every 2-byte payload 0x0000..0xffff on IPv4 and IPv6 (drives the checksum through all values); ICMP echo replies for every payload length; TCP: SYN/SYN-ACK with every option combination, data with timestamps and SACK blocks, pure ACKs, FIN, RST from handshake checks and for unknown destinations, under drop/dup/reorder deviations (budget 1); Ethernet addressing: two links with the same next-hop address and different link addresses, datagrams through each in both orders (ARP/NDP frames themselves in the C12 scenarios); distinct = distinct scenario input; non-trivial = all",
 		Assumes:    []string{"UDP over IPv4 with checksum field 0 means 'no checksum' and is accepted; over IPv6 it is a violation (RFC 8200 8.1)"},
 		Jobs:       c06Jobs,
 		Run:        c06Run,
@@ -38,6 +41,7 @@ func c06Jobs(tier string) []string {
 		}
 		jobs = append(jobs, "udplen:"+fam, "echo:"+fam)
 	}
+	jobs = append(jobs, "eth2")
 	// TCP originators: two-stack runs and raw-peer runs with only the monitor oracle
 	pair := []string{
 		"or=m,bw=40,close=both-shut,mtu=76,aw=96,b=1",
@@ -125,6 +129,20 @@ func c06Run(job, tier string, deadline time.Time) *engine.Result {
 			r.AddExtra("frames_"+k, int64(v))
 		}
 		r.Sample(map[string]interface{}{"job": job, "payloads": len(payloads)})
+	case "eth2":
+		// two Ethernet links, the same next-hop address on both with different link addresses:
+		// every frame leaves with the link address resolved on the link it leaves through
+		for _, order := range [][2]int{{1, 2}, {2, 1}} {
+			for _, announce := range []bool{false, true} {
+				if msg := c06Eth2(order, announce); msg != "" {
+					report("eth2:"+keyOf(fmt.Errorf("%s", msg)), msg, map[string]interface{}{"job": job})
+				}
+				r.Execs++
+				r.Transitions += 4
+				r.Nontrivial++
+			}
+		}
+		r.Sample(map[string]interface{}{"job": job, "what": "gateway 10.9.9.1 on NIC 1 (MAC ..a1) and on NIC 2 (MAC ..b2); datagrams routed through each in both orders, with and without the gateway announcing itself on the other link first"})
 	case "echo":
 		v6 := parts[1] == "6"
 		w := c13NewWorld()
@@ -239,4 +257,95 @@ func c06Replay(rp json.RawMessage) *engine.Violation {
 		}
 	}
 	return nil
+}
+
+
+// c06Eth2 runs one two-link history; returns "" or what went wrong.
+func c06Eth2(order [2]int, announce bool) string {
+	w := NewWorld()
+	mon := NewMonitor()
+	gw := tcpip.Address("\x0a\x09\x09\x01")
+	own := map[int]tcpip.Address{1: "\x0a\x09\x09\x02", 2: "\x0a\x09\x09\x03"}
+	ownMAC := map[int]tcpip.LinkAddress{1: "\x02\x00\x00\x00\x01\x01", 2: "\x02\x00\x00\x00\x02\x02"}
+	gwMAC := map[int]tcpip.LinkAddress{1: "\x02\xaa\xaa\xaa\xaa\xa1", 2: "\x02\xbb\xbb\xbb\xbb\xb2"}
+	far := map[int]tcpip.Address{1: "\x14\x00\x00\x05", 2: "\x1e\x00\x00\x05"}
+	n := w.AddNode(NodeCfg{Name: "S", V4: []tcpip.Address{own[1]}, MTU: 1500, LinkAddr: ownMAC[1]})
+	w.AddNIC(n, 2, NodeCfg{V4: []tcpip.Address{own[2]}, MTU: 1500, LinkAddr: ownMAC[2]})
+	n.S.SetRouteTable([]tcpip.Route{
+		{Destination: "\x14\x00\x00\x00", Mask: "\xff\x00\x00\x00", Gateway: gw, NIC: 1},
+		{Destination: "\x1e\x00\x00\x00", Mask: "\xff\x00\x00\x00", Gateway: gw, NIC: 2},
+	})
+	defer func() {
+		n.S.RemoveAddress(1, own[1])
+		n.S.RemoveAddress(2, own[2])
+		w.Settle()
+	}()
+	sk := n.NewSock(udp.ProtocolNumber, ipv4.ProtocolNumber)
+	defer sk.EP.Close()
+	resolved := map[int]bool{}
+	// pump: answer ARP requests for the gateway on the link they were sent on, check data frames
+	pump := func(nicWant int) string {
+		for i := 0; i < 20; i++ {
+			w.Settle()
+			fl := w.InFlight()
+			if len(fl) == 0 {
+				return ""
+			}
+			for _, f := range fl {
+				w.Take(f)
+				d, err := mon.Check(f, []tcpip.Address{own[1], own[2]})
+				if err != nil {
+					return "malformed frame: " + err.Error()
+				}
+				nic := int(f.NIC)
+				if d.ARP != nil {
+					if d.ARP.Op == 1 && string(d.ARP.TPA[:]) == string(gw) {
+						if string(d.ARP.SHA[:]) != string(ownMAC[nic]) || string(d.ARP.SPA[:]) != string(own[nic]) {
+							return fmt.Sprintf("ARP request on NIC %d carries sender %x/%x, the interface is %x/%x", nic, d.ARP.SPA, d.ARP.SHA, string(own[nic]), string(ownMAC[nic]))
+						}
+						resolved[nic] = true
+						w.Inject(n, tcpip.NICID(nic), 0x0806, ref.BuildARP(2, []byte(gwMAC[nic]), []byte(gw), []byte(ownMAC[nic]), []byte(own[nic])), gwMAC[nic], ownMAC[nic])
+					}
+					continue
+				}
+				if d.UDP == nil {
+					continue
+				}
+				if !resolved[nic] {
+					return fmt.Sprintf("a datagram left through NIC %d to link address %x although the next hop %x was never resolved on that link", nic, string(f.DstMAC), string(gw))
+				}
+				if f.DstMAC != gwMAC[nic] {
+					return fmt.Sprintf("datagram on NIC %d sent to link address %x, the next hop %x resolved there to %x", nic, string(f.DstMAC), string(gw), string(gwMAC[nic]))
+				}
+				if f.SrcMAC != ownMAC[nic] {
+					return fmt.Sprintf("datagram on NIC %d carries source link address %x, the interface has %x", nic, string(f.SrcMAC), string(ownMAC[nic]))
+				}
+			}
+		}
+		return ""
+	}
+	for k, nic := range order {
+		if k == 1 && announce {
+			// the gateway of the first link announces itself there once more (a request for us)
+			first := order[0]
+			w.Inject(n, tcpip.NICID(first), 0x0806, ref.BuildARP(1, []byte(gwMAC[first]), []byte(gw), make([]byte, 6), []byte(own[first])), gwMAC[first], ownMAC[first])
+			if m := pump(first); m != "" {
+				return m
+			}
+		}
+		for try := 0; try < 4; try++ {
+			_, ch, err := sk.EP.Write(tcpip.SlicePayload([]byte(fmt.Sprintf("via-nic-%d", nic))), tcpip.WriteOptions{To: &tcpip.FullAddress{Addr: far[nic], Port: 99}})
+			if m := pump(nic); m != "" {
+				return fmt.Sprintf("order %v announce=%v: %s", order, announce, m)
+			}
+			if err == nil {
+				break
+			}
+			if err != tcpip.ErrWouldBlock || try == 3 {
+				return fmt.Sprintf("order %v: write through NIC %d failed: %v", order, nic, err)
+			}
+			_ = ch
+		}
+	}
+	return ""
 }
